@@ -374,6 +374,35 @@ def mk_oracle(script, fault):
                 return unit
             if nm in ("contains", "has"):
                 return h is not None
+            if nm == "contains_at_top":
+                return its[lvl] is not None
+            if nm == "entry":
+                # the registry's entry API: the scope that holds the value, else the scope the call was made on
+                E = "mahf::state::registry::entry::Entry"
+                if h is not None:
+                    return Agg("adt", E, "Occupied", [Sym("iter-occupied:%d" % h)])
+                return Agg("adt", E, "Vacant", [Sym("iter-vacant:%d" % lvl)])
+            return TOP
+        if k.startswith("mahf::state::registry::entry::OccupiedEntry::") and isinstance(a0, Sym) and a0.tag.startswith("iter-occupied:"):
+            h = int(a0.tag.split(":")[1])
+            if nm in ("get", "get_mut", "into_mut"):
+                return Ref(HOME + h, [], frame="root")
+            if nm == "insert":
+                root = interp.mstate.get("frames", {}).get("root", env)
+                oldv = root.get(HOME + h)
+                v = load(interp, env, args[1])
+                interp.write_ref(env, Ref(HOME + h, [], frame="root"), v.fields[0] if isinstance(v, Agg) else TOP)
+                return Agg("adt", ITER, None, [oldv])
+            return TOP
+        if k.startswith("mahf::state::registry::entry::VacantEntry::") and isinstance(a0, Sym) and a0.tag.startswith("iter-vacant:"):
+            lvl = int(a0.tag.split(":")[1])
+            if nm == "insert":
+                its = list(interp.mstate.get("iters", (None,) * MAXLVL))
+                its[lvl] = 0
+                interp.mstate["iters"] = tuple(its)
+                v = load(interp, env, args[1])
+                interp.write_ref(env, Ref(HOME + lvl, [], frame="root"), v.fields[0] if isinstance(v, Agg) else TOP)
+                return Ref(HOME + lvl, [], frame="root")
             return TOP
         return TOP
     return oracle
@@ -390,7 +419,7 @@ def run_real(F, t, script, fault, max_visits=24):
     STATE_NFIELDS[0] = len(sf)
     state = mk_state(Sym("reg:0"))
     inl = lambda k: (k.startswith("mahf::components::control_flow::") or k.startswith("<mahf::components::control_flow::") or k.startswith("mahf::configuration::")
-                     or k.startswith("mahf::state::State::") or k.startswith("<mahf::state::State") or k.startswith("mahf::state::require::") or k.startswith("<mahf::state::require::"))
+                     or k.startswith("mahf::state::State::") or k.startswith("<mahf::state::State") or k.startswith("mahf::state::registry::entry::Entry::") or k.startswith("<mahf::state::registry::entry::Entry") or k.startswith("mahf::state::require::") or k.startswith("<mahf::state::require::"))
     it = install(Interp(fn.body, chain(mk_oracle(script, fault), coll_oracle, std_oracle), [cfg, Sym("problem"), Ref(HOME - 1, [], frame="root")], facts=F, inline=inl, max_visits=max_visits, max_paths=40, max_depth=40))
     it.dispatch = True
     env = {HOME - 1: state}
@@ -399,3 +428,26 @@ def run_real(F, t, script, fault, max_visits=24):
     it.extra_env = env
     it.init_state = {"heap": heap, "next_vec": 0, "iters": (None,) * MAXLVL}
     return it.run()
+
+
+def compare(F, t, script, fault, max_visits=24):
+    """None if Configuration::run on the tree behaves like the structured program, else what differs"""
+    ref = Ref_(script, fault)
+    want_res = ref.run(t)
+    paths = run_real(F, t, script, fault, max_visits=max_visits)
+    if len(paths) != 1:
+        return "is not decided: %d paths (%s)" % (len(paths), sorted({p.end for p in paths}))
+    p = paths[0]
+    if p.end == "limit":
+        return "is not decided: the evaluation bound was reached"
+    got_res = p.ret.variant if (p.end == "return" and hasattr(p.ret, "variant")) else p.end
+    got = list(p.mstate.get("trace", ()))
+    if got != ref.trace:
+        k = next((i for i, (a, b) in enumerate(zip(got, ref.trace)) if a != b), min(len(got), len(ref.trace)))
+        return ("diverges from the structured program at step %d: real code does %s, the structured program does %s (phase, node, scope level, visible loop counter)"
+                % (k, got[k] if k < len(got) else "nothing more", ref.trace[k] if k < len(ref.trace) else "nothing more"))
+    if got_res != want_res:
+        return "returns %s, the structured program ends with %s" % (got_res, want_res)
+    if p.mstate.get("open", 0) != 0:
+        return "leaves %d scope(s) open" % p.mstate.get("open", 0)
+    return None
